@@ -355,6 +355,7 @@ def c08(run: Run):
 def ideal_window(ops, d):
     """ideal semantics of a window op list: history list, guard dist <= min(len, d)"""
     H = bytearray()
+    flushed = bytearray()
     res = []
     for op in ops:
         if op[0] == "lit":
@@ -364,7 +365,7 @@ def ideal_window(ops, d):
             ln, dist = op[1], op[2]
             if dist > d or dist > len(H):
                 res.append("err")
-                return H, res, False
+                return flushed + H, res, False
             for _ in range(ln):
                 H.append(H[len(H) - dist])
             res.append("ok")
@@ -373,7 +374,15 @@ def ideal_window(ops, d):
             res.append("err" if dist > d or dist > len(H) else str(H[len(H) - dist]))
         elif op[0] == "lastor":
             res.append(str(H[-1] if H else op[1]))
-    return H, res, True
+        elif op[0] == "bytes":
+            H += op[1]
+            res.append("ok")
+        elif op[0] == "reset":
+            # the history so far goes to the sink and is no longer addressable
+            flushed += bytes(H)
+            H = bytearray()
+            res.append("ok")
+    return flushed + H, res, True
 
 
 def c09(run: Run):
@@ -465,6 +474,14 @@ def c09(run: Run):
             else:
                 b = rng.below(256)
                 ops.append(("lastor", b)); txt.append("lastor:%d" % b)
+        if kind == "accum" and rng.chance(1, 2):
+            # LzAccumBuffer::append_bytes / reset (LZMA2 uncompressed chunks, dictionary reset)
+            pos = rng.below(len(ops) + 1)
+            bs = rng.bytes(rng.below(4) + 1)
+            ops.insert(pos, ("bytes", bs)); txt.insert(pos, "bytes:" + bs.hex())
+            if rng.chance(1, 2):
+                pos = rng.below(len(ops) + 1)
+                ops.insert(pos, ("reset",)); txt.insert(pos, "reset")
         dd = d if kind == "circ" else 2**64
         H, exp, alive = ideal_window(ops, dd)
 
@@ -556,6 +573,9 @@ def c10(run: Run):
                         return "window buffers %s bytes with memory limit %d" % (t.split("/")[1], mlim)
             return None
         run.add("win kind=circ d=%d m=%d ops=%s" % (d, mlim, ";".join(txt + ["fin"])), oracle=oracle, tag="c10:ops")
+        if i % 4 == 0:
+            # the accumulating window checks its limit on literals only (recorded; LZMA2 passes usize::MAX): model = code
+            run.add("win kind=accum d=0 m=%d ops=%s" % (mlim, ";".join(txt + ["fin"])), oracle=None, tag="c10:ops-accum")
 
 
 # ----------------------------------------------------------------- C11
